@@ -1275,3 +1275,61 @@ def rf144(run):
     if n == 0:
         raise F.AnalysisBroken('machinize_call: no get_ext_code in the loop over the results')
     return n
+
+
+# ---------------------------------------------------------------------------------------------
+# RF155: the prologue reserves whole eightbytes for a block parameter that arrives in registers
+# ---------------------------------------------------------------------------------------------
+
+def rf155(run):
+    rule = 'RF155'
+    run.rule(rule, 'x86-64 target_machinize: a BLK+1 … BLK+4 parameter that arrives in registers is stored with 8-byte moves at offsets 0 and 8 '
+                   'of its block variable.  In each such branch the storage given to the variable covers the size rounded up to whole '
+                   'eightbytes (`blk_size`): either an ALLOCA of blk_size, or a slot of a shared area whose running offset advances by '
+                   'blk_size.  A slot of the declared size (12 for three ints) lets the second store run into the next block or past the area')
+    tu = run.tu('gen')
+    f = tu.func('target_machinize')
+    run.functions_analysed.add(('gen', f.name))
+    branches = []
+    for x in f.walk():
+        if x['k'] == 'IfStmt' and 'MIR_T_BLK' in F.src(x['c'][0]):
+            n_ = x
+            while n_ is not None and n_['k'] == 'IfStmt':
+                th = n_['c'][1]
+                if any(y['k'] == 'CallExpr' and y.get('callee') == '_MIR_new_var_mem_op' and len(F.call_args(y)) > 3
+                       and F.src(F.strip(F.call_args(y)[3])).replace(' ', '').startswith('((i+') and F.const_value(F.strip(F.call_args(y)[2])) in (0, 8)
+                       for y in F.walk(th)) and 'MIR_T_BLK' in F.src(n_['c'][0]):
+                    if th not in [b for b in branches]:
+                        branches.append(th)
+                n_ = n_['c'][2] if len(n_['c']) > 2 else None
+    # dedupe nested hits
+    uniq = []
+    for b in branches:
+        if not any(b is not o and any(y is b for y in F.walk(o)) for o in branches) and b not in uniq:
+            uniq.append(b)
+    if len(uniq) < 2:
+        raise F.AnalysisBroken('target_machinize: branches for blocks passed in registers not found (%d)' % len(uniq))
+    n = 0
+    for th in uniq:
+        how = None
+        ok = False
+        for y in F.walk(th):
+            if y['k'] == 'CallExpr' and y.get('callee') == 'MIR_new_insn' and len(F.call_args(y)) >= 4 and F.src(F.strip(F.call_args(y)[1])) == 'MIR_ALLOCA':
+                sz = F.src(F.strip(F.call_args(y)[3])).replace(' ', '')
+                how = 'ALLOCA of %s' % sz
+                ok = 'blk_size' in sz
+        if how is None:
+            for y in F.walk(th):
+                if y['k'] == 'CompoundAssignOperator' and y['op'] == '+=':
+                    e = F.src(F.strip(y['c'][1])).replace(' ', '')
+                    how = 'slot of a shared area, offset advanced by %s' % e
+                    ok = e == 'blk_size' or ('blk_size' in e and '.size' not in e)
+        if how is None:
+            raise F.AnalysisBroken('target_machinize: storage of a register-passed block not recognised (line %d)' % th['l'])
+        n += 1
+        run.ob(rule, (th['l'],), ok, {'branch at': th['l'], 'storage': how})
+        if not ok:
+            run.violation(rule, f, 'block slot smaller than its eightbytes', 'the block variable of a parameter passed in registers gets %s, but it is filled '
+                          'with 8-byte stores at offsets 0 and 8: for a 12-byte struct the second store overlaps the next block (or the saved registers '
+                          'behind the area), so a native caller\'s arguments arrive changed' % how, line=th['l'])
+    return n
